@@ -1,8 +1,10 @@
 package main
 
+import "strings"
+
 func init() {
 	register("C06", runC06, propMeta{
-		Explanation: "Decides, for every interleaving of pool requests, the ownership argument behind request isolation: (P1) getGengine returns only the head of a free list that is known non-empty, read and popped (list = list[1:]) in one critical section of the list's lock while the exclusive getEngineLock is held, and the free lists are touched only by construction, getGengine and putGengineLocked; wrappers are allocated only by NewGenginePool; (P2, template A10 over all 24 pool execute methods) after a successful acquire the deferred function is registered before anything else runs or returns, deletes exactly the keys this request injected (same data map / same names that went into prepare) from the wrapper's own data context, and only then puts the same wrapper back, once; getKeys returns every key, clearInjected and DataContext.Del delete each; (P3) NewGenginePool gives every tag in [0,max) its own NewRuleBuilder(NewDataContext()) and prepare* bind gw.rulebuilder = gp.rbSlice[gw.tag] and inject only into that context; (P4) every engine method starts with a fresh result map (C11-M1) written only by addResult; (P5) each pool method runs the engine call on gw.gengine with gw.rulebuilder of the acquired wrapper, after the release was deferred, with no pool lock held, and returns the error of that call and the result map read from the same engine after the call; every RuleEntity.Execute in the engine receives the Dc of the function's own rule builder. Not decided: data the host itself shares between its requests through its own pointers.",
+		Explanation: "Decides, for every interleaving of pool requests, the ownership argument behind request isolation: (P1) getGengine returns only the head of a free list that is known non-empty, read and popped (list = list[1:]) in one critical section of the list's lock while the exclusive getEngineLock is held, and the free lists are touched only by construction, getGengine and putGengineLocked; wrappers are allocated only by NewGenginePool; (P2, template A10 over all 24 pool execute methods) after a successful acquire the deferred function is registered before anything else runs or returns, deletes exactly the keys this request injected (same data map / same names that went into prepare) from the wrapper's own data context, and only then puts the same wrapper back, once; getKeys returns every key, clearInjected and DataContext.Del delete each; (P3) NewGenginePool gives every tag in [0,max) its own NewRuleBuilder(NewDataContext()) and prepare* bind gw.rulebuilder = gp.rbSlice[gw.tag] and inject only into that context; (P4) every engine method starts with a fresh result map (C11-M1) written only by addResult; (P5) each pool method runs the engine call on gw.gengine with gw.rulebuilder of the acquired wrapper, after the release was deferred, with no pool lock held, and returns the error of that call and the result map read from the same engine after the call; every RuleEntity.Execute in the engine receives the Dc of the function's own rule builder. (P6) every goroutine an execute method starts is joined before the method returns, so nothing of a request runs on after the pool has cleared the instance and handed it on. Not decided: data the host itself shares between its requests through its own pointers.",
 		Assumptions: []string{"sync.Mutex / RWMutex contracts", "the host does not retain and share the objects it injects"},
 		Trusted:     commonTrusted,
 	})
@@ -23,4 +25,20 @@ func runC06(c *Ctx) {
 	c.ruleM5("P4-map-written-only-by-addResult")
 	c.ruleOwnDc("P5-own-data-context", fns)
 	c.Min("P5-own-data-context", 25)
+	// the request is over when its call returns: every goroutine an execute method starts is joined
+	// before the method returns (the pool then clears the instance and hands it to the next request; a
+	// rule still running would read that request's data and write into its result map). Only the
+	// join obligations of the fork/join rule, not its counts and per-goroutine shapes.
+	c.only = func(key string) bool { return strings.HasSuffix(key, "/barrier") }
+	c.joinBeforeReturnOnly = true
+	for _, fn := range fns {
+		m := c.engModel(fn)
+		if len(m.gos) == 0 {
+			continue
+		}
+		c.ruleA4("P6-nothing-runs-after-return", fn, isRuleExec, m.errList())
+	}
+	c.only = nil
+	c.joinBeforeReturnOnly = false
+	c.Min("P6-nothing-runs-after-return", 15)
 }
